@@ -2559,11 +2559,16 @@ private:
   // Apply a HARD TLS 1.2 minimum-version floor to a context: an operator may
   // RAISE the minimum (e.g. TLS 1.3) but never lower it below 1.2 (BCP 195 /
   // RFC 9325). configuredMin == 0 (unset) floors to 1.2; a positive value below
-  // 1.2 is clamped up.
+  // 1.2 is clamped up. The floor is set first and then raised, so a value
+  // OpenSSL rejects (not a protocol version) or ignores (a DTLS constant on a
+  // TLS context) leaves the 1.2 floor in place instead of no minimum at all.
   static void applyTls12Floor(::SSL_CTX *ctx, int configuredMin)
   {
-    const int minVer = configuredMin < TLS1_2_VERSION ? TLS1_2_VERSION : configuredMin;
-    ::SSL_CTX_set_min_proto_version(ctx, minVer);
+    ::SSL_CTX_set_min_proto_version(ctx, TLS1_2_VERSION);
+    if (configuredMin > TLS1_2_VERSION)
+    {
+      ::SSL_CTX_set_min_proto_version(ctx, configuredMin);
+    }
   }
 
   bool initTls()
